@@ -654,6 +654,30 @@ f256_encode(unsigned char *buf, const uint64_t *a)
 }
 
 /*
+ * Check that a coordinate (unsigned big-endian, 32 bytes) is lower than
+ * the field modulus p = 2^256 - 2^224 + 2^192 + 2^96 - 1. Returned value
+ * is 1 if the value is in the 0..p-1 range, 0 otherwise. Constant-time.
+ */
+static uint32_t
+check_coord(const unsigned char *buf)
+{
+	static const unsigned char P256_P_BE[] = {
+		0xFF, 0xFF, 0xFF, 0xFF, 0x00, 0x00, 0x00, 0x01,
+		0x00, 0x00, 0x00, 0x00, 0x00, 0x00, 0x00, 0x00,
+		0x00, 0x00, 0x00, 0x00, 0xFF, 0xFF, 0xFF, 0xFF,
+		0xFF, 0xFF, 0xFF, 0xFF, 0xFF, 0xFF, 0xFF, 0xFF
+	};
+	uint32_t cc;
+	int i;
+
+	cc = 0;
+	for (i = 31; i >= 0; i --) {
+		cc = ((uint32_t)buf[i] - (uint32_t)P256_P_BE[i] - cc) >> 31;
+	}
+	return cc;
+}
+
+/*
  * Decode a point. The returned point is in Jacobian coordinates, but
  * with z = 1. If the encoding is invalid, or encodes a point which is
  * not on the curve, or encodes the point at infinity, then this function
@@ -671,6 +695,13 @@ point_decode(p256_jacobian *P, const unsigned char *buf)
 	 * Header byte shall be 0x04.
 	 */
 	r = EQ(buf[0], 0x04);
+
+	/*
+	 * Both coordinates must be lower than the field modulus; larger
+	 * values are not valid encodings (they would otherwise be
+	 * silently reduced).
+	 */
+	r &= check_coord(buf + 1) & check_coord(buf + 33);
 
 	/*
 	 * Decode X and Y coordinates, and convert them into
